@@ -814,7 +814,7 @@ impl Property for C06 {
 		500
 	}
 	fn cases(&self, tier: Tier) -> u64 {
-		tier.pick(120_000, 3_000_000)
+		tier.pick(1_500_000, 15_000_000)
 	}
 
 	fn run(&self, tape: &[u32], ctx: &mut Ctx) -> CaseResult {
